@@ -14,6 +14,11 @@ THEOREMS = [
     "VK.C08_points_equivariant",
     "VK.C08_margin_perm_invariant",
     "VK.C08_margin_equivariant",
+    "VK.stvStep_lineq",
+    "VK.stvLoop_lineq",
+    "VK.C08_stv_representation_invariant",
+    "VK.C08_stv_ballot_order",
+    "VK.C08_stv_ballot_split",
 ]
 RULE = ("cases = deterministic configuration of every ranking / scoring / pairwise rule (as in C10) on a random profile; "
         "five transformations of the input: rename the candidates by a random bijection into a second name pool (sort "
